@@ -146,7 +146,11 @@ impl OutputFormatter {
         let schema = batches[0].schema();
 
         // Write header
-        let headers: Vec<&str> = schema.fields().iter().map(|f| f.name().as_str()).collect();
+        let headers: Vec<String> = schema
+            .fields()
+            .iter()
+            .map(|f| csv_quote(f.name()))
+            .collect();
         writeln!(writer, "{}", headers.join(","))?;
 
         // Write data rows
@@ -207,7 +211,7 @@ impl OutputFormatter {
                     }
                     let col = batch.column(col_idx);
                     let value = self.format_json_value(col, row_idx);
-                    write!(writer, "\"{}\": {}", field_name, value)?;
+                    write!(writer, "\"{}\": {}", json_escape(field_name), value)?;
                 }
                 write!(writer, "}}")?;
                 row_count += 1;
@@ -269,12 +273,7 @@ impl OutputFormatter {
 
         let value = self.format_display_value(array, row);
 
-        // Quote if contains comma, quote, or newline
-        if value.contains(',') || value.contains('"') || value.contains('\n') {
-            format!("\"{}\"", value.replace('"', "\"\""))
-        } else {
-            value
-        }
+        csv_quote(&value)
     }
 
     /// Format a single value for JSON output
@@ -287,12 +286,12 @@ impl OutputFormatter {
             DataType::Utf8 => {
                 let arr = array.as_any().downcast_ref::<StringArray>().unwrap();
                 let val = arr.value(row);
-                format!("\"{}\"", val.replace('\\', "\\\\").replace('"', "\\\""))
+                format!("\"{}\"", json_escape(val))
             }
             DataType::LargeUtf8 => {
                 let arr = array.as_any().downcast_ref::<LargeStringArray>().unwrap();
                 let val = arr.value(row);
-                format!("\"{}\"", val.replace('\\', "\\\\").replace('"', "\\\""))
+                format!("\"{}\"", json_escape(val))
             }
             DataType::Boolean => {
                 let arr = array.as_any().downcast_ref::<BooleanArray>().unwrap();
@@ -330,17 +329,31 @@ impl OutputFormatter {
                 let arr = array.as_any().downcast_ref::<UInt64Array>().unwrap();
                 arr.value(row).to_string()
             }
+            // JSON has no NaN / Infinity literal; like serde_json, write null.
             DataType::Float32 => {
                 let arr = array.as_any().downcast_ref::<Float32Array>().unwrap();
-                arr.value(row).to_string()
+                let v = arr.value(row);
+                if v.is_finite() {
+                    v.to_string()
+                } else {
+                    "null".to_string()
+                }
             }
             DataType::Float64 => {
                 let arr = array.as_any().downcast_ref::<Float64Array>().unwrap();
-                arr.value(row).to_string()
+                let v = arr.value(row);
+                if v.is_finite() {
+                    v.to_string()
+                } else {
+                    "null".to_string()
+                }
             }
             _ => {
                 // For other types, use display format with quotes
-                format!("\"{}\"", self.format_display_value(array, row))
+                format!(
+                    "\"{}\"",
+                    json_escape(&self.format_display_value(array, row))
+                )
             }
         }
     }
@@ -456,6 +469,35 @@ impl OutputFormatter {
             }
         }
     }
+}
+
+/// One CSV field (RFC 4180): quoted when it contains a comma, a quote, CR or
+/// LF, with embedded quotes doubled. Used for values and for column names
+/// alike — `COALESCE(a, b)` is a perfectly ordinary column name.
+fn csv_quote(value: &str) -> String {
+    if value.contains([',', '"', '\n', '\r']) {
+        format!("\"{}\"", value.replace('"', "\"\""))
+    } else {
+        value.to_string()
+    }
+}
+
+/// The inside of a JSON string (RFC 8259 §7): `"` and `\` escaped, control
+/// characters as `\n` `\r` `\t` or `\u00XX`. Everything else is legal as is.
+fn json_escape(s: &str) -> String {
+    let mut out = String::with_capacity(s.len());
+    for c in s.chars() {
+        match c {
+            '"' => out.push_str("\\\""),
+            '\\' => out.push_str("\\\\"),
+            '\n' => out.push_str("\\n"),
+            '\r' => out.push_str("\\r"),
+            '\t' => out.push_str("\\t"),
+            c if (c as u32) < 0x20 => out.push_str(&format!("\\u{:04x}", c as u32)),
+            c => out.push(c),
+        }
+    }
+    out
 }
 
 /// Render one row of a nested (list / vector / struct / map) column compactly.
